@@ -28,11 +28,6 @@ theorem gtype_encode_root (t : Tree) (h : t.rootedWF CT DT = true) : (encode t).
   cases t with
   | mk i k => simp only [Tree.info_mk] at h; simp [encode, h.2]
 
-/-- the group-type vocabulary the validator and the reader use was found in the current source -/
-theorem C05_translator_tie :
-    (["dataGroupTypes", "baseGroupTypes", "customGroupTypes", "groupTypes"].all (fun n => !EmdGen.unavailable.contains n)) = true := by
-  decide
-
 /-- a save that creates a file — whole tree or any partial selection `sel` — writes a valid EMD 1.0 file -/
 theorem C05_new_file (sess : Session) (uuid : String) (n : String) (sel : Tree)
     (hw : sel.rootedWF CT DT = true) (hp : sel.allInfo infoOK = true) :
